@@ -13,7 +13,7 @@ from ._pairs import compare_tables, compare_all, executed_rows, table_state_keys
 
 PID = "C14"
 LEVEL = "model_checking"
-WITNESSES = ["cut_day_compared", "cut_in_season", "cut_changes_future", "extra_rows_pair", "end_extension_pair", "extension_adds_season", "thermal_crop_pair"]
+WITNESSES = ["cut_day_compared", "cut_in_season", "cut_changes_future", "extra_rows_pair", "end_extension_pair", "extension_adds_season", "thermal_crop_pair", "extension_with_off_season"]
 NONTRIVIAL = ["cut_changes_future", "extra_rows_pair", "end_extension_pair"]
 
 CUT_CONFIGS = {
@@ -78,6 +78,12 @@ def scenarios(tier, seed=0):
             # a start before the planting date (pre-season fallow days) with overridden crop parameters
             yield {"kind": "extend", "name": name, "ext": ext, "pre": True, "cropkw": {"Zmin": 0.6}}
             yield {"kind": "extend", "name": name, "ext": ext, "pre": True, "cropkw": {"Aer": 12, "Zmin": 0.2}}
+            # the off-season simulated (fallow days before planting and between seasons), start before / on the planting date
+            yield {"kind": "extend", "name": name, "ext": ext, "pre": True, "off": True}
+            yield {"kind": "extend", "name": name, "ext": ext, "off": True}
+            # ... from a window shorter than a year to one longer than a year
+            yield {"kind": "extend", "name": name, "ext": 365, "pre": True, "off": True, "end": "2001/12/30"}
+            yield {"kind": "extend", "name": name, "ext": 365, "pre": True, "end": "2001/12/30"}
 
 
 def run(scn):
@@ -152,7 +158,9 @@ def run(scn):
 
     if scn["kind"] == "extend":
         spec = A.catalogue_spec(scn["name"], word="hot", irr="smt", iwc="Pct50", dz="deep30" if scn.get("gw") else "d12",
-                                start="2001/04/11" if scn.get("pre") else "2001/05/01", cropkw=scn.get("cropkw"))
+                                start="2001/04/11" if scn.get("pre") else "2001/05/01", cropkw=scn.get("cropkw"), off=bool(scn.get("off")), **({"end": scn["end"]} if scn.get("end") else {}))
+        if scn.get("off"):
+            hit("extension_with_off_season")
         if scn.get("gw"):
             # observations: at the start, and 400 / 600 days later (beyond the original end date, inside / beyond the extension)
             meth = "Variable" if scn["gw"].endswith("_v") else "Constant"
